@@ -175,7 +175,7 @@ func (w *World) send(line map[string]interface{}, kind string) *Verdict {
 		w.Failures = append(w.Failures, Failure{"miss", "valuation table did not cover the model's requests", ln, kind})
 	}
 	for k, val := range v.Info {
-		if k == "rewarddiff" || k == "included" || k == "pooled" || k == "cands" || k == "survivors" || k == "outcomes" {
+		if k == "rewarddiff" || k == "included" || k == "pooled" || k == "cands" || k == "mustkeep" || k == "fork" || k == "survivors" || k == "outcomes" {
 			continue
 		}
 		w.Hist[k+":"+val]++
